@@ -576,7 +576,7 @@ def violation_class(v: dict[str, Any]) -> str:
 
 def finalise_task(v: dict[str, Any]) -> dict[str, Any]:
     """Minimise one representative violation and confirm it reproduces."""
-    if v["family"] == "F":
+    if v["family"] in ("F", "C"):
         return v
     scn, viol = v["scenario"], v["violation"]
     small = minimise(scn, viol)
@@ -588,9 +588,105 @@ def finalise_task(v: dict[str, Any]) -> dict[str, Any]:
     return {"scenario": small, "violation": again, "family": v["family"]}
 
 
+def client_task(k: int) -> dict[str, Any]:
+    """Family C: the shipped client (`mypy.dmypy.client.request`) reads a multi-frame reply
+    (stdout/stderr frames, then the final frame) from a scripted socket under a drawn segmentation."""
+    import contextlib
+    import io
+    import tempfile
+
+    import mypy.dmypy.client as client
+    import mypy.ipc as ipc
+
+    rng = kit.rng_for(PROP, "client", k)
+    nout = rng.randint(0, 4)
+    parts: list[dict[str, Any]] = []
+    for i in range(nout):
+        key = rng.choice(["stdout", "stderr"])
+        parts.append({key: f"line {i} " + "\u00e9x" * rng.randint(0, 200) + "\n"})
+    final = {"out": "a.py:1: error: x\n" * rng.randint(0, 300), "err": "", "status": rng.randint(0, 2), "final": True}
+    parts.append(final)
+    stream = b"".join(ipcsim.frame(json.dumps(p).encode("utf-8")) for p in parts)
+    mode = rng.choice(["bytes1", "few", "many", "whole"])
+    if mode == "bytes1" and len(stream) > 6000:
+        mode = "many"
+    if mode == "bytes1":
+        cuts: Any = "bytes1"
+    elif mode == "whole":
+        cuts = None
+    else:
+        n = rng.randint(1, 4) if mode == "few" else rng.randint(5, 40)
+        cuts = sorted(rng.sample(range(1, len(stream)), min(n, len(stream) - 1)))
+    chunks = ipcsim.chunk(stream, cuts)
+    sent = bytearray()
+
+    class Sock:
+        def setsockopt(self, *a: Any) -> None: ...
+        def settimeout(self, t: Any) -> None: ...
+        def connect(self, name: str) -> None: ...
+        def close(self) -> None: ...
+        def sendall(self, b: bytes) -> None:
+            sent.extend(b)
+
+        def recv(self, size: int) -> bytes:
+            if not chunks:
+                return b""
+            c = chunks[0]
+            if len(c) > size:
+                chunks[0] = c[size:]
+                return c[:size]
+            return chunks.pop(0)
+
+    class Mod:
+        AF_UNIX = 1
+        SOL_SOCKET = 1
+        SO_RCVBUF = 8
+        SO_SNDBUF = 7
+
+        @staticmethod
+        def socket(*a: Any) -> Sock:
+            return Sock()
+
+    real = ipc.socket
+    ipc.socket = Mod  # type: ignore[assignment]
+    bad = None
+    d = tempfile.mkdtemp(prefix="c16c-", dir=kit.scratch_root())
+    try:
+        sf = os.path.join(d, "status.json")
+        with open(sf, "w") as f:
+            json.dump({"pid": os.getpid(), "connection_name": "fake"}, f)
+        o, e = io.StringIO(), io.StringIO()
+        with contextlib.redirect_stdout(o), contextlib.redirect_stderr(e):
+            resp = client.request(sf, "check", files=["a.py"], export_types=False)
+        want = {k_: v for k_, v in final.items() if k_ != "final"}
+        want_out = "".join(p.get("stdout", "") for p in parts[:-1])
+        want_err = "".join(p.get("stderr", "") for p in parts[:-1])
+        if resp != want:
+            bad = {"kind": "client_response_differs", "got_keys": sorted(resp), "error": str(resp.get("error"))[:200]}
+        elif o.getvalue() != want_out or e.getvalue() != want_err:
+            bad = {"kind": "client_stream_output_differs"}
+        else:
+            req_frames, rest = ipcsim.split_frames(bytes(sent))
+            if len(req_frames) != 1 or rest or json.loads(req_frames[0]).get("command") != "check":
+                bad = {"kind": "client_request_frame_malformed"}
+    finally:
+        ipc.socket = real  # type: ignore[assignment]
+        kit.rmtree(d)
+    res: dict[str, Any] = {
+        "family": "C", "k": k, "evaluations": 1, "faults": {"client_segmentation_" + mode: 1}, "probes": {"client_reply_frames": len(parts)},
+        "nontrivial": [kit.digest(["C", len(stream), cuts if cuts != "bytes1" else "b1", nout])] if len(parts) > 1 or mode != "whole" else [],
+        "interleavings": [],
+    }
+    if bad is not None:
+        res["violation"] = {"scenario": {"family": "C", "k": k, "seed": kit.seed()}, "violation": bad, "family": "C"}
+    return res
+
+
 def task(item: Any) -> dict[str, Any]:
     if item[0] == "F":
         return framing_task(item[1])
+    if item[0] == "C":
+        return client_task(item[1])
     return scenario_task(item)
 
 
@@ -648,6 +744,10 @@ def build_items(tier: str) -> tuple[list[Any], dict[str, int]]:
     for k in range(n_f):
         items.append(("F", k))
     sizes["F"] = n_f
+    n_c = 150 if tier == "quick" else 8000
+    for k in range(n_c):
+        items.append(("C", k))
+    sizes["C"] = n_c
     return items, sizes
 
 
@@ -734,9 +834,9 @@ def replay(path: str) -> int:
     with open(path) as f:
         rp = json.load(f)
     scn = rp["scenario"]
-    if scn.get("family") == "F":
+    if scn.get("family") in ("F", "C"):
         os.environ["VERIF_SEED"] = str(scn["seed"])
-        r = framing_task(scn["k"])
+        r = framing_task(scn["k"]) if scn["family"] == "F" else client_task(scn["k"])
         v = r.get("violation", {}).get("violation")
     else:
         v = evaluate(scn)["violation"]
